@@ -4,6 +4,7 @@ package props
 import (
 	_ "verifharness/props/c01"
 	_ "verifharness/props/c06"
+	_ "verifharness/props/c07"
 	_ "verifharness/props/c09"
 	_ "verifharness/props/c10"
 	_ "verifharness/props/c11"
